@@ -410,6 +410,11 @@ pub fn check_case(c: &PackCase, l: &mut Local) -> Result<(), String> {
         spec2.precreate_arrays = 0;
         if let Some(ctx2) = hh.add_second_pool(&spec2, true) {
             let starts = hh.w.swap_array_starts(hh.pool, c.a_to_b);
+            if starts.is_empty() {
+                // the price stands in the last slot of the outermost array: no array lies ahead of a swap in this direction
+                l.count("no_array_ahead_of_the_swap");
+                return Ok(());
+            }
             let foreign_start = starts[starts.len() / 2];
             let ix = hh.w.ix_init_tick_array(ctx2.pool, foreign_start, c.order_seed % 2 == 0);
             if hh.w.exec(&ix).ok() {
@@ -457,9 +462,18 @@ fn layout_history() -> BoxedStrategy<HistoryCase> {
         3..=9,
     )
     .prop_map(|v| v.into_iter().flatten().collect::<Vec<Op>>());
-    let spec = (spec_strategy(false, false), prop_oneof![3 => prop::sample::select(vec![1u16, 2, 8]), 2 => Just(0u16)]).prop_map(|(mut s, small)| {
+    // one layout in seven sits at an END of the tick range on a spacing whose first / last usable tick is the first / last slot of its
+    // array (the outermost arrays, the sentinel ticks and the protocol price bounds all come into play)
+    let edge = prop_oneof![6 => Just(None), 1 => (prop::sample::select(edge_aligned_spacings().clone()), any::<bool>(), 0i32..120).prop_map(Some)];
+    let spec = (spec_strategy(false, false), prop_oneof![3 => prop::sample::select(vec![1u16, 2, 8]), 2 => Just(0u16)], edge).prop_map(|(mut s, small, edge)| {
         if small != 0 {
             s.tick_spacing = small;
+        }
+        if let Some((ts, top, k)) = edge {
+            let t = ts as i32;
+            s.tick_spacing = ts;
+            s.start_tick = if top { MAX_TICK / t * t - k * t } else { MIN_TICK / t * t + k * t };
+            return s;
         }
         // array-aligned start ticks make "first / last slot" placements meaningful
         if s.start_tick % 3 == 0 && s.tick_spacing < 32768 {
@@ -487,7 +501,7 @@ pub fn def() -> CheckDef {
     CheckDef {
         id: "C10",
         rule: "a tick layout built through real positions (bounds forced onto first / last slots of arrays, neighbouring arrays, full range, array-aligned and shifted start \
-               states, all tick spacings incl. full-range-only), replayed as the same instruction history in four packagings (encodings as generated / flipped / all fixed / \
+               states, all tick spacings incl. full-range-only, arbitrary ones, and layouts at either end of the tick range on spacings whose first / last usable tick is the first / last slot of its array), replayed as the same instruction history in four packagings (encodings as generated / flipped / all fixed / \
                all dynamic; empty arrays absent or created on-chain), then one swap.  (1) Metamorphic: abstract state after the history and the swap outcome (amounts, pool \
                fields, every initialized tick, crossed list) identical across packagings and across per-call variations (permuted account order, arrays passed as v2 \
                supplemental accounts); reduced supply fails, equals the full outcome, or stops inside the shortened window having crossed exactly the initialized ticks up to its end price (no liquidity skipped); an initialized array of another pool is rejected, in a fixed slot and as a supplemental account next to a complete own supply.  (2) Reference walk over the \
